@@ -6,7 +6,8 @@
   for ResourceUnavailable, WorkLoad (exact / max / min, any number of intervals and busy
   intervals), ResourceNonDelay, ResourceTasksDistance (with and without time intervals),
   SameWorkers, DistinctWorkers; `C04_resource_constraints` lifts it to `initialize`.
-  The interruption classes and the periodic classes are not in the model yet (see DESIGN.md).
+  ResourceInterrupted and ResourcePeriodicallyUnavailable are in the model (ENC) and in the SEM twin but
+  have no theorem yet; ResourcePeriodicallyInterrupted is not modelled (see DESIGN.md §6, §10).
 -/
 import PS.Theorems.C03
 namespace PS
